@@ -67,6 +67,35 @@ CHECKS = {
           "pre-#0 section must hold the defaults, the clock must toggle once per cycle, and the text-wave record must hold the same values.",
           "The harness-side VCD reader (vf/ref/vcd.py) follows IEEE 1364 value-change syntax; values at the edge are read through the public signal attributes.",
           "DESIGN.md 3/C16"),
+  "C08": ("exploration",
+          "property-based testing (Hypothesis) with metamorphic variants: nets and writers from elaboration compared with union-find over the IR's connection statements, for permuted/side-swapped renderings of the same design",
+          "For generated legal designs every rendering variant (permuted statements, swapped sides, connect vs //=, interleaved blocks) must "
+          "elaborate to exactly the connected components of the statement graph with the unique externally driven member as writer, the "
+          "adjacency dict must equal the statement graph, all variants must agree, and after simulation all members of a net carry one value.",
+          "The driver side of each connection is known to the generator only; constants are compared by value.",
+          "DESIGN.md 3/C08"),
+  "C17": ("exploration",
+          "model-based property testing (Hypothesis histories + exhaustive abstract transition table) against pure-Python FIFO specifications, lock-step every cycle",
+          "13 queue classes (queues.py, enrdy_queues.py, stream/queues.py, cl_queues.py; capacities 1-5; Bits and struct entries) are driven "
+          "with protocol-legal offer histories and compared every cycle with a FIFO spec per kind (rdy/val clauses, delivered message, count, "
+          "final content); the (occupancy, pointer, enq, deq) table is completed for capacities <=4.",
+          "valrdy_queues.py cannot be imported on the pinned tree (missing InValRdyIfc/OutValRdyIfc) and is not covered; one known finding "
+          "(BypassQueue2RTL enq.rdy bubble) is tolerated by exact signature and the lock-step continues behind it.",
+          "DESIGN.md 3/C17"),
+  "C18": ("exploration",
+          "model-based property testing (Hypothesis): request streams x timing configurations against a byte-array reference memory, with the processing order observed on the MagicMemoryFL instance",
+          "MagicMemoryCL (1-3 ports) and stream MagicMemoryRTL (1-2 ports) under generated latencies, stall probabilities, source gaps and sink "
+          "back-pressure: every request processed exactly once in per-port order, responses in order with type/opaque, data equal to the model "
+          "applied in logged order, final image equal, and identical contents under two timing configurations for disjoint ports.",
+          "The FL read/write/amo methods are wrapped on the instance (harness side) to observe processing order.",
+          "DESIGN.md 3/C18"),
+  "C19": ("exploration",
+          "model-based property testing (Hypothesis histories) + exhaustive (pointer, reqs, en) table for small nreqs against an explicit rotating-priority model",
+          "RoundRobinArbiter and RoundRobinArbiterEn, nreqs 2-8: grants one-hot-or-zero, subset of reqs, first requester at or after the pointer, "
+          "pointer update/hold/reset compared with priority_reg.out every cycle, fairness monitor on histories; all (pointer, reqs, en) triples "
+          "enumerated for nreqs<=4 (quick) / <=6 (thorough).",
+          "Pointer observed through priority_reg.out (property anchor).",
+          "DESIGN.md 3/C19"),
 }
 
 NOT_YET = {}
